@@ -22,6 +22,11 @@ A stub that fails (1)/(2) cannot be given to stubtest (stubtest refuses the whol
 the errors are attributed to are recorded and the module is regenerated without them; failures that cannot
 be attributed to an element split the module in halves.  For every distinct signature the simplest element
 is re-run alone in its own module; the violation's replay detail is that minimal module.
+
+Signature = mode | construct family | failing oracle | cause.  The cause is the diagnostic with generated
+names abstracted; the CAUSES table below only renames/merges diagnostics that were triaged to one root cause
+(a finding no row matches keeps its generic signature, so the table cannot hide anything).  EXEMPT lists the
+one disagreement that is the source's own doing (an import of a module that does not exist).
 """
 
 from __future__ import annotations
@@ -78,6 +83,7 @@ class _Eval:
         self.round = 0
         self.stub_samples: dict[str, str] = {}
         self.exempt: list[str] = []
+        self.emitted: set[str] = set()  # elements for which the stub contains at least one statement
 
     # -- helpers
     def _owner(self, elems: list[G.Defn]) -> dict[str, str]:
@@ -177,6 +183,12 @@ class _Eval:
         if len(elems) and plan.name not in self.stub_samples:
             self.stub_samples[plan.name] = stubs.get(emod.replace(".", "/") + ".pyi", "")[:1500]
 
+        for rel, text in stubs.items():
+            smod = O._stub_module(rel)
+            for top in set(O.owner_by_line(text)):
+                el0 = elem_of(smod, top) if top else None
+                if el0 is not None:
+                    self.emitted.add(el0.id)
         culprits: dict[str, None] = {}
         unattributed: list[str] = []
         # (1) ast.parse
@@ -192,7 +204,7 @@ class _Eval:
                 if el is None and not single:
                     unattributed.append(f"syntax {rel}:{e.lineno}")
                 else:
-                    self._find(el or (elems[0] if elems else None), "ast.parse", O.normalise_reason(f"{e.msg}: {bad.strip()}", modnames), f"{rel}:{e.lineno}: {e.msg}: {bad}", files, stubs)
+                    self._find(el or (elems[0] if elems else None), "ast.parse", O.normalise_reason(f"stub is not valid Python: {e.msg}", modnames), f"{rel}:{e.lineno}: {e.msg}: {bad}", files, stubs)
                     if el or elems:
                         culprits[(el or elems[0]).id] = None
         # (2) mypy on the stub alone
@@ -315,6 +327,7 @@ def _run_plan_mode(job: dict) -> dict:
         "runs": ev.runs,
         "harness": ev.harness,
         "exempt": ev.exempt,
+        "emitted": sorted(ev.emitted),
         "stub_samples": ev.stub_samples,
         "secs": round(time.time() - t0, 1),
     }
@@ -455,6 +468,8 @@ def run(ctx: Ctx) -> Result:
     runs = 0
     stub_samples: dict[str, str] = {}
     exempt: list[str] = []
+    canon = {e.id: re.sub(r"\d+", "N", e.src) for p in plans for e in p.elems}
+    distinct: set[tuple[str, str]] = set()
     per_family = Counter()
     for p in plans:
         per_family[p.family] += len(p.elems)
@@ -465,6 +480,7 @@ def run(ctx: Ctx) -> Result:
         runs += val["runs"]
         harness += val["harness"]
         exempt += val["exempt"]
+        distinct.update((val["mode"], canon[i]) for i in val["emitted"] if i in canon)
         passed[val["mode"]] += len(val["passed"])
         blocked[val["mode"]] += len(set(val["blocked"]))
         evaluated[val["mode"]] += len(set(val["passed"])) + len({f["elem"] for f in val["findings"] if f["elem"]} | set(val["blocked"]))
@@ -542,9 +558,10 @@ def run(ctx: Ctx) -> Result:
     distinct_failing = len({(f["plan"], f["elem"], f["mode"]) for f in findings})
     coverage: dict[str, Any] = {
         "evaluations": n_eval,
-        "distinct_nontrivial": n_eval,
-        "rule": "one (grammar element, stubgen mode) pair whose generated stub went through oracles (1)-(4); "
-                "every element defines at least one public name, so every pair is non-trivial",
+        "distinct_nontrivial": len(distinct),
+        "rule": "evaluation = one (grammar element, stubgen mode) pair whose generated stub went through the oracles; "
+                "distinct = pairs whose element source differs after the unique numeric suffixes are removed; "
+                "non-trivial = stubgen emitted at least one stub statement owned by the element in that mode",
         "exhaustive": n_eval == total_pairs and not harness,
         "elements": n_elems,
         "modes": list(G.MODES),
@@ -570,6 +587,8 @@ def run(ctx: Ctx) -> Result:
     }
     if n_eval < 0.9 * total_pairs:
         raise RuntimeError(f"vacuous/incomplete exploration: {n_eval} of {total_pairs} pairs evaluated; harness={harness[:3]}")
+    if len(distinct) < 2:
+        raise RuntimeError("vacuous: fewer than 2 distinct non-trivial (element, mode) pairs")
     if sum(passed.values()) == 0:
         raise RuntimeError("no (element, mode) pair passed all four oracles: the harness is broken")
     assumptions = [
